@@ -52,7 +52,11 @@ func genEnum(r *vh.Rand) EnumEnv {
 			e.UnspecDesc = "nothing"
 		}
 		if r.Chance(12) {
-			e.Unspecified = "X_UNSPECIFIED" // another name ending in UNSPECIFIED: the reader takes its head for the prefix
+			// another first option ending in UNSPECIFIED: since /repo a65e1f2 an ordinary
+			// option (number 1), value 0 stays the implicit <prefix>UNSPECIFIED
+			e.Options = append([]string{"X_UNSPECIFIED"}, e.Options...)
+			e.OptDescs = append([]string{e.UnspecDesc}, e.OptDescs...)
+			e.Unspecified, e.UnspecDesc = "", ""
 		}
 	}
 	if r.Chance(40) {
@@ -237,7 +241,17 @@ func genIntRules(r *vh.Rand, k IKind) (*IntRules, string) {
 	if ir.XMax != nil && !*ir.XMax && ir.Max == nil {
 		class = "compile-error"
 	}
+	if class == "" && r.Chance(6) {
+		// schema.proto:313; buf.validate has no such rule, the compiler refuses it
+		ir.Mult = ptr(int64(vh.Pick(r, []int{1, 2, 3, 10})))
+		class = "refused-multiple-of"
+	}
 	return ir, class
+}
+
+// refused: the compiler is expected to reject the declaration
+func refused(class string) bool {
+	return class == "compile-error" || strings.HasPrefix(class, "refused-")
 }
 
 func genFTy(r *vh.Rand, scope string, env EnumEnv) (FTy, string) {
@@ -275,7 +289,7 @@ func genFTy(r *vh.Rand, scope string, env EnumEnv) (FTy, string) {
 			if r.Bool() {
 				t.Str.Pat = ptr(genBadPattern(r))
 			}
-			return t, "unevaluable-pattern" // compiles; the validator then fails on every message of the type
+			return t, "refused-pattern" // regexp.Compile refuses it: a compile error (before 1eb1bda it compiled and the validator failed on every message of the type)
 		}
 		return t, ""
 	case 3:
@@ -333,6 +347,21 @@ func genFTy(r *vh.Rand, scope string, env EnumEnv) (FTy, string) {
 			}
 		}
 		t.List = genLPay(r, false, false)
+		if t.List != nil && len(t.List.Filters) > 0 {
+			// default filters of an enum field name options of the enum (short or prefixed);
+			// anything else is a compile error since /repo fb0e252
+			o := strings.TrimPrefix(vh.Pick(r, env.Options), env.Prefix)
+			if r.Chance(30) {
+				o = env.Prefix + o
+			}
+			t.List.Filters = []string{o}
+			if r.Chance(15) {
+				t.List.Filters = []string{o, "NOPE"}
+				if class == "" {
+					class = "refused-enum-default-filter"
+				}
+			}
+		}
 		return t, class
 	case 6:
 		t := FTy{Kind: TKey, KF: KFmt(r.Intn(5))}
@@ -368,7 +397,7 @@ func genFTy(r *vh.Rand, scope string, env EnumEnv) (FTy, string) {
 		t.List = genLPay(r, false, false)
 		if scope == "c12" && t.KF == KCustom && class == "" && r.Chance(12) {
 			t.KPat = vh.Pick(r, badPatterns)
-			class = "unevaluable-pattern"
+			class = "refused-pattern"
 		}
 		return t, class
 	case 7:
@@ -465,6 +494,12 @@ func genProp04(r *vh.Rand, name string, env EnumEnv) genDecl {
 				gd.P.MapR = mr
 			}
 		}
+		if genMapExt && r.Chance(40) {
+			gd.P.MapExt = &MapExt{Single: ptr("pair")}
+			if genAST && r.Chance(30) {
+				gd.P.MapExt = &MapExt{}
+			}
+		}
 	}
 	// a string whose pattern is one of the reader's well-known patterns
 	if gd.P.T.Kind == TStr && gd.P.T.SFormat == nil && r.Chance(8) {
@@ -478,7 +513,8 @@ func genProp04(r *vh.Rand, name string, env EnumEnv) genDecl {
 		gd.P.Opt = true
 	}
 	if gd.P.Desc != "" && r.Chance(10) {
-		ds := []string{"# not a description", "two  spaces", "first line\n# second\nthird"}
+		ds := []string{"# not a description", "two  spaces", "first line\n# second\nthird",
+			"first para\n\nsecond para", "a\n\n\nb (two blank lines)", "one\ntwo\n\nthree"} // paragraph breaks survive since 5c4fce2
 		if genAST {
 			ds = append(ds, "ends with space ") // the j5s text cannot say it
 		}
@@ -491,6 +527,10 @@ func genProp04(r *vh.Rand, name string, env EnumEnv) genDecl {
 // switches of the C04 run: timestamp bounds (sayable through the source AST only) are
 // not generated, custom keys now and then carry one of the reader's well-known patterns
 var genTSBounds, genKeyWellKnown = true, false
+
+// MapField.Ext is generated only for the streams whose Coq cases carry the extended
+// declaration (xprop): the flat C04 object stream and the C12 field stream
+var genMapExt = false
 
 var wellKnownPatterns = []string{`^\d{4}-\d{2}-\d{2}$`, `^\d(.?\d)?$`, "^[0-9A-Za-z]{22}$"}
 
@@ -539,7 +579,7 @@ func genProp(r *vh.Rand, name string, scope string, env EnumEnv) genDecl {
 				*ar.Min, *ar.Max = *ar.Max, *ar.Min
 			}
 			if ar.Uniq != nil && *ar.Uniq && t.Kind >= TDate && class == "" {
-				class = "unevaluable-unique" // compiles; repeated.unique then fails on any non-empty list of messages
+				class = "refused-unique" // a compile error (before 7a3975a it compiled and repeated.unique failed on any non-empty list of messages)
 			}
 			p.Arr = ar
 		}
@@ -561,6 +601,12 @@ func genProp(r *vh.Rand, name string, scope string, env EnumEnv) genDecl {
 		}
 		if mr.Min != nil || mr.Max != nil {
 			p.MapR = mr
+		}
+	}
+	if genMapExt && p.PK == PMap && r.Chance(35) {
+		p.MapExt = &MapExt{Single: ptr("pair")}
+		if genAST && r.Chance(30) {
+			p.MapExt = &MapExt{} // present but empty: the text cannot say it
 		}
 	}
 	switch r.Intn(5) {
@@ -623,7 +669,7 @@ func presentButEmpty(r *vh.Rand, p *Prop) {
 
 // the j5s text cannot express a rules message that is present but empty
 func normalise(p *Prop) {
-	if r := p.T.Int; r != nil && r.Min == nil && r.Max == nil && r.XMin == nil && r.XMax == nil {
+	if r := p.T.Int; r != nil && r.Min == nil && r.Max == nil && r.XMin == nil && r.XMax == nil && r.Mult == nil {
 		p.T.Int = nil
 	}
 	if r := p.T.Str; r != nil && r.Pat == nil && r.Min == nil && r.Max == nil {
